@@ -1,6 +1,175 @@
+import Model.C04.Domain
+import Model.C04.Verdict
+import Model.C04.Switch
 /-!
-# C04 — property theorems only (see DESIGN.md §3 C04).
+# C04 — the libsecp256k1 and pure-Python backends are observationally identical (DESIGN.md §3 C04)
+
+"A ≡ B on all inputs" is decided as "A ≡ M and B ≡ M" for the backend-free model M of the other properties; the two
+arms are tied to M and to each other by the dual-arm streams of harness/c04.py.  What Lean adds for C04:
+
+* **T1** every delegation site found in the source (Generated/BackendSites.lean, regenerated each run): the generated
+  guard, with the facts its preceding validating statements establish, gives the bindings' documented domain, or the
+  call stands inside a handler that translates the bindings' refusal.  Widening a guard, dropping a `% ec.n` /
+  `require_on_curve` / `scalar_from_prv_key`, or removing a handler breaks the obligation.
+* **T2** verdict tables: per dual-path API, `py c = bind c` for every class `c` of the finite lattice — or, where the
+  divergence is real (silent-payment scanning of an output that is no x-coordinate), the exact set of classes on which
+  the arms differ, replayed on the real code by the harness under its finding key.  Four more divergences found while
+  building (x outside 0..p-1, hybrid keys, the engine wrapper's high s, ECDH at infinity) were repaired in /repo; their
+  classes stay in the lattice and the theorems now state agreement on them.
+* **T3** the switch writes the flag and nothing else.
 -/
 namespace Props.C04
+open Gen.Backend Gen.BackendSites Btc.C04
+
+/-! ## T1 — generated guards imply the bindings' domain -/
+
+/-- the translated dispatch predicate is `flag ∧ ec = secp256k1 ∧ hf ∈ {None, sha256}` -/
+theorem serves_spec (flag ecNot hfOk : Bool) :
+    libsecp256k1_serves flag ecNot hfOk = (flag && !ecNot && hfOk) := by
+  cases flag <;> cases ecNot <;> cases hfOk <;> rfl
+
+/-- every delegation site: established facts ∧ generated guard → bindings' domain, or the refusal is handled -/
+theorem guard_implies_domain (s : SiteId) (x : Atoms) : siteOK s x = true := by
+  cases s <;> simp only [siteOK, pre, served, scalar1, scalar2, point1, point2] <;> unfold_sites <;> grind
+
+/-- sites with NO handler around the call: the guard alone (with the established facts) gives the domain -/
+theorem unhandled_sites_strict (s : SiteId) (x : Atoms) (h : s.catches = false) : siteStrict s x = true := by
+  revert h
+  cases s <;> simp only [siteStrict, pre, served, scalar1, scalar2, point1, point2] <;> unfold_sites <;> grind
+
+/-- with the switch off no dispatch site delegates; the three exceptions are the INSIDE of a delegation already made
+(an object built, or a helper entered, while the bindings served) -/
+theorem switched_off_no_delegation (s : SiteId) (x : Atoms) (hoff : x.flag = false) (hg : s.guard x = true) :
+    s = .tweak_chain_point__tweak_add ∨ s = .sp_delegated_scan_outputs__prevouts_summary
+      ∨ s = .sp_delegated_scan_outputs__scan_outputs := by
+  revert hg
+  cases s <;> unfold_sites <;> simp [hoff]
+
+/-- another curve is never delegated -/
+theorem other_curve_no_delegation (s : SiteId) (x : Atoms) (hec : x.ec_is_secp256k1 = false) (hg : s.guard x = true) :
+    s.source.1 ∉ ["btclib.curves.curve._x_octets", "btclib.curves.curve._is_x_coordinate_var",
+      "btclib.curves.curve._y_even_var", "btclib.curves.curve._multi_mult_x_only_var", "btclib.curves.curve._mult_checked",
+      "btclib.curves.curve.double_mult_var", "btclib.curves.curve._sum_var", "btclib.curves.curve._tweak_add_var",
+      "btclib.curves.curve._TweakChain.__init__", "btclib.curves.curve.multi_mult_var",
+      "btclib.curves.sec_point.bytes_from_prv_key_int", "btclib.curves.sec_point._mult_sec_var",
+      "btclib.curves.sec_point._sec_from_octets", "btclib.ecc.dsa.sign_", "btclib.ecc.dsa.sign_recoverable_",
+      "btclib.ecc.dsa.assert_as_valid_", "btclib.ecc.dsa.recover_pub_keys_", "btclib.ecc.dsa.recover_pub_key_",
+      "btclib.ecc.ssa.sign_", "btclib.ecc.ssa.assert_as_valid_", "btclib.ecc.dh.diffie_hellman",
+      "btclib.ecc.commit_nonce.commit_nonce_", "btclib.ecc.ellswift.create_var", "btclib.ecc.ellswift.encode_var",
+      "btclib.ecc.ellswift.decode_var", "btclib.ecc.ellswift.xdh"] := by
+  revert hg
+  cases s <;> unfold_sites <;> simp [hec, SiteId.source]
+
+/-- "scalar in 1..n-1": a residue `m % n` that is not zero is in the bindings' scalar domain -/
+theorem reduced_nonzero_in_range (m n : Int) (hn : 0 < n) (h : m % n ≠ 0) : 1 ≤ m % n ∧ m % n ≤ n - 1 := by
+  have h0 := Int.emod_nonneg m (Int.ne_of_gt hn)
+  have h1 := Int.emod_lt_of_pos m hn
+  omega
+
+example : siteStrict .double_mult__libsecp256k1_multi_mult
+    { (Atoms.ofBits (List.replicate 40 true)) with s1_nonzero := true } = true := by decide
+example : (SiteId.mult_checked__libsecp256k1_multi_mult).guard (Atoms.ofBits (List.replicate 40 true)) = false := by decide
+example : (SiteId.dh__pubkey_tweak_mul).guard { (Atoms.ofBits (List.replicate 40 true)) with p1_is_generator := false } = true := by
+  decide
+
+/-! ## T2 — verdict tables -/
+
+/-- `mult` / `PreparedPoint.mult`: agreement on every class.  The class `xOutOfRange` (x = x₀ + k·p) is kept in the
+lattice: until fix d8821600 it was the one class on which the arms differed (bindings arm: foreign `OverflowError`) -/
+theorem mult_agrees (m : Scalar) (q : Point) : Mult.py m q = Mult.bind m q := by
+  cases m <;> cases q <;> rfl
+/-- why that fix is the right one: the arms agree on `xOutOfRange` BECAUSE `require_on_curve` refuses it first — the
+bindings arm itself still has no answer for it -/
+theorem mult_x_out_of_range_refused_before_dispatch (m : Scalar) :
+    Point.requireOnCurve .xOutOfRange = some .errValue ∧ Mult.bind m .xOutOfRange = .errValue := by
+  cases m <;> decide
+
+theorem tweak_add_agrees (t : Tweak) (p : Point) : TweakAdd.py t p = TweakAdd.bind t p := by
+  cases t <;> cases p <;> rfl
+
+theorem pubkey_agrees (q : Scalar) : PubKey.py q = PubKey.bind q := by cases q <;> rfl
+
+/-- `diffie_hellman` (fix 89eda414: the guard reads `QV[1]`): agreement on every class, infinity included -/
+theorem dh_agrees (d : Scalar) (q : Point) : Dh.py d q = Dh.bind d q := by
+  cases d <;> cases q <;> rfl
+theorem dh_infinity_is_runtime_error (d : Scalar) : Dh.bind d .infinity = .errRuntime := by
+  cases d <;> decide
+
+theorem point_from_octets_agrees (hyb : Bool) (k : Sec) : PointFromOctets.py hyb k = PointFromOctets.bind hyb k := by
+  cases hyb <;> cases k <;> rfl
+
+/-- `dsa.assert_as_valid_`: agreement on every class; a hybrid-prefixed key is refused by both arms (fix 8f6c8cd5: before
+it the octets reached `ec_pubkey_parse` unproven and the bindings arm accepted them) -/
+theorem dsa_assert_agrees (m : MsgLen) (k : Key) (s : DsaSig) : DsaAssert.py m k s = DsaAssert.bind m k s := by
+  cases m <;> cases k <;> cases s <;> rfl
+theorem dsa_assert_hybrid_refused (m : MsgLen) (s : DsaSig) : DsaAssert.bind m .hybrid s = .errValue := by
+  cases m <;> cases s <;> rfl
+
+/-- the engine's exported wrapper: agreement on every class, the high-s form included (fix 6426fb77) -/
+theorem engine_dsa_agrees (m : MsgLen) (k : EngineDsa.EKey) (s : DsaSig) : EngineDsa.py m k s = EngineDsa.bind m k s := by
+  cases m <;> cases k <;> cases s <;> rfl
+
+theorem recover_agrees (kid : KeyId) (m : MsgLen) (s : DsaSig) : Recover.py kid m s = Recover.bind kid m s := by
+  cases kid <;> cases m <;> cases s <;> rfl
+
+theorem ssa_assert_agrees (k : XKey) (s : SsaSig) : SsaAssert.py k s = SsaAssert.bind k s := by
+  cases k <;> cases s <;> rfl
+
+/-- silent-payment scanning: the negation of agreement, with its witness class (finding
+`sp.scan.offcurve_backend_divergence`), and agreement everywhere else — the empty list included (fix 9a0d5101) -/
+theorem sp_scan_diverges : ∃ c, SpScan.py c ≠ SpScan.bind c := ⟨.notX, by decide⟩
+theorem sp_scan_diverges_exactly (c : SpOutput) : SpScan.py c ≠ SpScan.bind c ↔ c = .notX := by
+  cases c <;> decide
+theorem sp_scan_empty_agrees : SpScan.py .none_ = SpScan.bind .none_ := rfl
+
+example : Mult.py .inRange .valid = .value ∧ Mult.bind .negative .offCurve = .errValue := by decide
+example : DsaAssert.py .len32 .valid .highS = .value ∧ DsaAssert.bind .len32 .valid .wrong = .errRuntime := by decide
+example : SpScan.py .notX = .value ∧ SpScan.bind .notX = .errValue := by decide
+
+/-! ## T3 — the switch writes the flag and nothing else -/
+
+/-- read off the source: the only name declared `global` and the only assignment target is the flag -/
+theorem set_serving_writes_only_the_flag :
+    setServingGlobals = ["_libsecp256k1_available"] ∧ setServingAssigned = ["_libsecp256k1_available"] := by
+  decide
+
+theorem set_serving_preserves_rest {ρ : Type} (inst b : Bool) (st st' : PkgState ρ)
+    (h : setServing inst b st = .ok st') : st'.rest = st.rest ∧ isServing st' = b := by
+  unfold setServing at h
+  split at h
+  · cases h
+  · cases h; exact ⟨rfl, rfl⟩
+
+theorem set_serving_refusal_is_value_error {ρ : Type} (inst b : Bool) (st : PkgState ρ) :
+    setServing inst b st = .error .value ↔ (b = true ∧ inst = false) := by
+  cases inst <;> cases b <;> simp [setServing]
+
+/-- any history of requests leaves everything but the flag as it was -/
+theorem history_preserves_rest {ρ : Type} (inst : Bool) (st : PkgState ρ) (hist : List Bool) :
+    (runHistory inst st hist).rest = st.rest := by
+  induction hist generalizing st with
+  | nil => rfl
+  | cons b bs ih =>
+    simp only [runHistory]
+    cases hs : setServing inst b st with
+    | error e => exact ih st
+    | ok st' =>
+      rw [ih st']
+      exact (set_serving_preserves_rest inst b st st' hs).1
+
+/-- with the bindings installed the flag after a history is the last request: the dispatch does not depend on
+anything earlier -/
+theorem history_last_wins {ρ : Type} (st : PkgState ρ) (hist : List Bool) (b : Bool) :
+    isServing (runHistory true st (hist ++ [b])) = b := by
+  induction hist generalizing st with
+  | nil => simp [runHistory, setServing, isServing]
+  | cons c cs ih => simp [runHistory, setServing, ih]
+
+/-- two package states with the same flag dispatch identically -/
+theorem serves_reads_flag_only {ρ : Type} (s1 s2 : PkgState ρ) (h : s1.available = s2.available) (e hf : Bool) :
+    serves s1 e hf = serves s2 e hf := by
+  simp [serves, h]
+
+example : isServing (runHistory true (⟨false, ()⟩ : PkgState Unit) [true, false, true]) = true := by decide
 
 end Props.C04
